@@ -1,6 +1,7 @@
 package codec
 
 import (
+	"regexp"
 	"google.golang.org/protobuf/encoding/protowire"
 	"fmt"
 	"go/ast"
@@ -465,6 +466,9 @@ func extractSize(m *model.Msg) (*sizeModel, error) {
 			}
 			if pl.String() == "len(x.unknownFields)" {
 				sm.Blocks = append(sm.Blocks, &sizeBlock{Kind: "unknown", Str: "if(nonnil(x.unknownFields)){len(x.unknownFields)}", Pos: t.Pos()})
+			} else if mm := bareLenRe.FindStringSubmatch(pl.String()); mm != nil {
+				// k*len(x.F) added without a guard: 0 for the empty list, so it equals the guarded form
+				sm.Blocks = append(sm.Blocks, &sizeBlock{Kind: "field", Str: "if(nonempty(" + mm[1] + ")){" + pl.String() + "}", Pos: t.Pos()})
 			}
 		case *ast.IfStmt:
 			// a oneof member as `if v, ok := x.O.(*W); ok && v != nil { … }`: consecutive ones over the same oneof form one block
@@ -521,6 +525,18 @@ func extractSize(m *model.Msg) (*sizeModel, error) {
 				return nil, wrapPos(m, t.Pos(), err)
 			}
 			sm.Blocks = append(sm.Blocks, blk)
+		case *ast.RangeStmt:
+			// an unpacked list summed by a bare loop: the sum over an empty list is 0, so it equals the loop wrapped in
+			// `if len(x.F) > 0 { … }`
+			coll, err := w.e.term(t.X)
+			if err != nil {
+				return nil, wrapPos(m, t.Pos(), err)
+			}
+			p, err := w.exec([]ast.Stmt{t})
+			if err != nil {
+				return nil, wrapPos(m, t.Pos(), err)
+			}
+			sm.Blocks = append(sm.Blocks, &sizeBlock{Kind: "field", Str: "if(nonempty(" + coll + ")){" + p.String() + "}", Pos: t.Pos()})
 		default:
 			return nil, wrapPos(m, s.Pos(), und("top-level statement %s", nodeStr(s)))
 		}
@@ -785,3 +801,5 @@ func (w *sizeWalker) isEntryCall(s ast.Stmt, fn, k, v types.Object) bool {
 	call, ok := ast.Unparen(x).(*ast.CallExpr)
 	return ok && w.isIdent(call.Fun, fn) && len(call.Args) == 2 && w.isIdent(call.Args[0], k) && w.isIdent(call.Args[1], v)
 }
+
+var bareLenRe = regexp.MustCompile(`^\d+\*len\((x\.\w+)\)$`)
